@@ -24,11 +24,20 @@ def resToV : Res → V
   | .ret none => .a "none"
   | .ret (some d) => distToV d
 
+/-- Magnitude class of the largest |weight| (the large-weight streams). -/
+def wmagTag (arcs : List Arc) : String :=
+  let mx := arcs.foldl (fun acc a => max acc a.2.2.natAbs) 0
+  if mx < 2^31 then "w<2^31" else if mx < 2^50 then "w<2^50" else if mx < 2^61 then "w<2^61" else "w>=2^61"
+
+/-- Descriptions the real structure accepts (`add_arc_weighted` asserts): only those are cases. -/
+def validDesc (gd : GDesc) : Bool :=
+  gd.repr == "wi" && gd.order ≥ 1 && gd.warcs.all (fun a => a.1 < gd.order && a.2.1 < gd.order && a.1 != a.2.1)
+
 def hDist : Handler := fun _ args obs =>
   match args, obs with
   | [gd, s], [out, dij] => do
     let gd ← GDesc.parse gd
-    if gd.repr != "wi" then none
+    if !validDesc gd then none
     let s ← V.nat? s
     let g := gd.wgraph
     let n := g.n
@@ -37,7 +46,8 @@ def hDist : Handler := fun _ args obs =>
     let model := resToV (distances g s)
     let nonneg := arcs.all (fun a => decide (0 ≤ a.2.2))
     let (od, negReach) := if s < n then wdistB g [s] else ([], false)
-    let anyNeg := (wdistB g (List.range n)).2
+    -- only a tag; trivially false on non-negative weights, not needed when a circuit is reachable
+    let anyNeg := !negReach && !nonneg && (wdistB g (List.range n)).2
     let propFail : Option String :=
       if s < n then
         if negReach then
@@ -47,7 +57,8 @@ def hDist : Handler := fun _ args obs =>
         else if nonneg && dij != out then some s!"dijkstra-disagrees {dij}"
         else none
       else none
-    let used := if s < n then roundsUsed arcs (n - 1) (init n s) else (0, false)
+    -- a reachable negative circuit makes every round update (a round without update is a fixpoint)
+    let used := if s < n && !negReach then roundsUsed arcs (n - 1) (init n s) else (n - 1, false)
     let tags := [
       sizeTag n,
       s!"m%4={m % 4}",
@@ -56,10 +67,46 @@ def hDist : Handler := fun _ args obs =>
       (if nonneg then "w-nonneg" else "w-hasneg"),
       (if out == V.a "none" then "res-none" else if out == V.a "panic" then "res-panic" else "res-some"),
       (if s < n then (if n ≤ 1 then "no-rounds" else if used.2 then (if used.1 < n - 1 then "break-early" else "break-in-last-round") else "all-rounds-updated") else "src-out-of-range"),
-      (if od.any Option.isNone then "some-unreachable" else "all-reachable") ]
+      (if od.any Option.isNone then "some-unreachable" else "all-reachable"),
+      wmagTag arcs,
+      (if od.any (fun x => match x with | some x => decide (x ≥ 2^62) | none => false) then "far>=MAX/2" else "far<MAX/2") ]
     pure (classify [out] [model] propFail (nt := n ≥ 2 && m ≥ 1 && s < n) tags)
   | _, _ => none
 
-def handlers : List (String × Handler) := [("bfm_dist", hDist)]
+/-- `bfm_dist_repeat [wi n warcs] s k => panic | [r1 … rk]`: `k` calls of `distances()` on the SAME
+object.  Model: `distancesRepeat` (the state is threaded literally); oracle: EVERY call must give
+the answer the specification fixes (`wdistB`). -/
+def hRepeat : Handler := fun _ args obs =>
+  match args, obs with
+  | [gd, s, k], [out] => do
+    let gd ← GDesc.parse gd
+    if !validDesc gd || out == V.a "badargs" then none
+    let s ← V.nat? s
+    let k ← V.nat? k
+    let g := gd.wgraph
+    let n := g.n
+    let m := (arcsOf g).length
+    let model : V := match distancesRepeat g s k with
+      | none => .a "panic"
+      | some rs => .l (rs.map (fun r => resToV (.ret r)))
+    let (od, negReach) := if s < n then wdistB g [s] else ([], false)
+    let want : V := if negReach then .a "none" else distToV od
+    let propFail : Option String :=
+      if s < n then
+        match out with
+        | .l rs =>
+          if rs.length != k then some s!"{rs.length}-results-for-{k}-calls"
+          else match (List.range k).find? (fun i => rs[i]? != some want) with
+            | some i => some s!"call-{i+1}-spec-says {want}"
+            | none => none
+        | _ => some s!"spec-says {want} on every call"
+      else none
+    let tags := [ sizeTag n, s!"calls={k}", s!"m%4={m % 4}",
+      (if negReach then "neg-reachable" else "no-neg-reachable"),
+      (if s < n then "rep-in-range" else "src-out-of-range"), wmagTag (arcsOf g) ]
+    pure (classify [out] [model] propFail (nt := n ≥ 2 && m ≥ 1 && s < n && k ≥ 2) tags)
+  | _, _ => none
+
+def handlers : List (String × Handler) := [("bfm_dist", hDist), ("bfm_dist_repeat", hRepeat)]
 
 end GraafVerif.Driver.H07
